@@ -158,4 +158,38 @@ theorem charOK_etAttr (c : Nat) : CharOK true etAttrChar c := by
   rw [he]
   exact ⟨by simp, fun f rest => by simp [readCharsF, h1, h2, h4, h6, h7]⟩
 
+/-! ### the repository's CR handling on top of ElementTree's escaping -/
+
+theorem flatMap_congr_mem {f g : Nat → Str} (s : Str) (h : ∀ x ∈ s, f x = g x) : s.flatMap f = s.flatMap g := by
+  induction s with
+  | nil => rfl
+  | cons a t ih =>
+    simp only [List.flatMap_cons]
+    rw [h a (by simp), ih (fun x hx => h x (by simp [hx]))]
+
+/-- with a private-use mark that does not occur in the text, `repoEscapeText` is lxml's escaping -/
+theorem repoEscapeText_eq (k : Nat) (s : Str) (hk : 0xE000 ≤ k) (hs : ∀ x ∈ s, x ≠ k) :
+    repoEscapeText k s = s.flatMap lxTextChar := by
+  simp only [repoEscapeText, etEscapeText, replaceAll_single, List.flatMap_assoc]
+  apply flatMap_congr_mem
+  intro x hx
+  have hxk := hs x hx
+  unfold lxTextChar
+  have hk38 : k ≠ 38 := by omega
+  have hk60 : k ≠ 60 := by omega
+  have hk62 : k ≠ 62 := by omega
+  have hsm : ∀ c : Nat, c < 200 → (if c = k then [38, 35, 49, 51, 59] else [c]) = [c] := by
+    intro c hc
+    have : c ≠ k := by omega
+    simp [this]
+  by_cases h1 : x = 38
+  · subst h1; simp [hk38, hk60, hk62, hsm]
+  by_cases h2 : x = 60
+  · subst h2; simp [hk38, hk60, hk62, hsm]
+  by_cases h3 : x = 62
+  · subst h3; simp [hk38, hk60, hk62, hsm]
+  by_cases h4 : x = 13
+  · subst h4; simp [hk38, hk60, hk62]
+  simp [h1, h2, h3, h4, hxk]
+
 end EPV.Json
